@@ -7,7 +7,7 @@ from harness import fsbox, tlc
 NAMES = ['n', 'n2', 'o']
 MUTABLE = ['main', 'd1/a', 'd1/b', 'd2/a']
 IGNORED = ['d1/.hidden', 'd1/sub']
-KINDS = ['new', 'old', 'alias', 'both']
+KINDS = ['new', 'old', 'alias', 'both', 'fixed']
 VARIANTS = ['plain', 'renamed', 'same', 'split', 'renamed_same', 'same_same']
 
 
@@ -22,6 +22,8 @@ def content(kind, f, t):
         return {'o': {'k': 'roles', 'r': [stamp(f, t)]}}
     if kind == 'alias':
         return {'o': {'k': 'alias', 'n': 'n'}}
+    if kind == 'fixed':
+        return {'n': {'k': 'roles', 'r': [f + '@fixed']}}
     return {'n': {'k': 'roles', 'r': [stamp(f, t)]}, 'n2': {'k': 'roles', 'r': [stamp(f, t) + '#2']}}
 
 
@@ -120,7 +122,7 @@ class Live:
         self.defaults = defaults if defaults is not None else defaults_for(variant)
         self.snap = snapshot_defaults(self.defaults)
         self.e = new_enforcer(self.box, variant, enforce_new, self.defaults)
-        self.roles = ['dflt', 'old', 'nobody']
+        self.roles = ['dflt', 'old', 'nobody'] + [f + '@fixed' for f in MUTABLE]
         self.trace = []
         self.last_print = None
         self.synced = False
